@@ -2,12 +2,18 @@
 (* Behaviours OUT of TLC for the conformance driver (binding direction i).
    State = one history `hist` of operations, the store `lines` the property demands after it, and `alt`, the store
    of the code AS SHIPPED after the same history (value names matched ignoring case; see IniStore.tla).  Every
-   distinct state prints one JSON line  [hist, store, gen (, store0, gen0)]  from an invariant; the rig replays hist
-   on a real ini_p and compares the driver's observation with `store`/`gen` for equality (store0/gen0 only serve to
-   recognise the two registered defects on the unchanged tree - anything else is a violation).
-   BehNext: every history up to MaxDepth (exhaustive).  SimNext: random walks for `tlc -simulate`. *)
+   distinct state prints one JSON line from an invariant:
+        hist            the operations (Set operations carry the branch of ini_val_set the model takes)
+        store, gen      what the driver must observe on a real ini_p after replaying hist (IniStore!ObsStore/ObsGen)
+        genS            (only if different) gen under the shipped capacity test
+        store0, gen0, gen0S   (only if alt differs) the same three for the shipped name matching
+   The rig compares the driver's observation with store/gen for EQUALITY; the other fields only serve to recognise the
+   two registered defects on the unchanged tree - any other difference is a violation.
+   BehNext: every history up to MaxDepth (exhaustive).  SimNext: random walks for `tlc -simulate`.
+   TextNext: one Parse of EVERY byte string over Alphabet up to MaxDepth bytes (line splitting/classification). *)
 EXTENDS IniMenu, Json
 
+CONSTANTS Alphabet
 VARIABLES alt, hist
 bvars == << lines, model, alt, hist >>
 
@@ -17,7 +23,8 @@ Q == SetToSeq({ << s, n >> : s \in Sections, n \in Names })          \* lookups 
 
 DoParse(t)     == Parse(t) /\ alt' = ParseOf(alt, t) /\ hist' = Append(hist, [op |-> "P", text |-> t])
 DoSet(s, n, v) == Set(s, n, v) /\ alt' = SetOf(alt, s, n, v, FALSE)
-                  /\ hist' = Append(hist, [op |-> "S", s |-> s, n |-> n, v |-> v])
+                  /\ hist' = Append(hist, [op |-> "S", s |-> s, n |-> n, v |-> v,
+                                           path |-> SetPath(lines, s, n, v, RepairedFind)])
 BehInit == Init /\ alt = << >> /\ hist = << >>
 BehNext == /\ Len(hist) < MaxDepth
            /\ \/ \E t \in Texts : DoParse(t)
@@ -33,13 +40,33 @@ SimNext == /\ Len(hist) < MaxDepth
                         DoSet(s, n, v)
 SimSpec == BehInit /\ [][SimNext]_bvars
 
+TextOf == IF hist = << >> THEN << >> ELSE hist[1].text
+TextNext == /\ Len(TextOf) < MaxDepth
+            /\ \E b \in Alphabet :
+                 LET t == Append(TextOf, b) IN
+                 /\ lines' = ParseOf(<< >>, t) /\ model' = DParse(EmptyModel, MapClassify(Split(t)))
+                 /\ alt' = lines' /\ hist' = << [op |-> "P", text |-> t] >>
+TextSpec == BehInit /\ [][TextNext]_bvars
+\* algebra of the text layer, checked on every byte string of TextSpec
+SplitAgree == CodeSplit(TextOf) = Split(TextOf)                       \* transcription of the C loop = mathematics
+ParseConcat ==      \* parsing appends: cutting the text after any LF gives the same lines
+   \A i \in 1..Len(TextOf) : TextOf[i] = LF =>
+        Items(TextOf) = Items(SubSeq(TextOf, 1, i)) \o Items(SubSeq(TextOf, i + 1, Len(TextOf)))
+ClassifyTotal == \A i \in 1..Len(lines) :
+   /\ lines[i].type = T_SECTION => lines[i].raw[1] = LBR /\ lines[i].raw[Len(lines[i].name) + 2] = RBR
+   /\ lines[i].type = T_VALUE => \A j \in 1..Len(lines[i].name) : lines[i].name[j] # EQC
+   /\ \A j \in 1..Len(lines[i].raw) : lines[i].raw[j] # LF
+TextInv == SplitAgree /\ ParseConcat /\ ClassifyTotal
+
 Line0 ==
-   LET st  == ObsStore(lines, Q, TRUE)    g  == ObsGen(lines, TRUE)
-       st0 == ObsStore(alt, Q, FALSE)     g0 == ObsGen(alt, FALSE)
-       base == [hist |-> hist, store |-> st, gen |-> g]
-   IN IF st0 = st /\ g0 = g THEN base
-      ELSE IF st0 = st THEN [hist |-> hist, store |-> st, gen |-> g, gen0 |-> g0]
-      ELSE [hist |-> hist, store |-> st, gen |-> g, store0 |-> st0, gen0 |-> g0]
+   LET st   == ObsStore(lines, Q, TRUE)
+       g    == ObsGen(lines, TRUE)
+       gS   == ObsGen(lines, FALSE)
+       r1   == [hist |-> hist, store |-> st, gen |-> g]
+       r2   == IF gS = g THEN r1 ELSE [hist |-> hist, store |-> st, gen |-> g, genS |-> gS]
+   IN IF CoreSeq(alt) = CoreSeq(lines) THEN r2
+      ELSE [hist |-> hist, store |-> st, gen |-> g, genS |-> gS,
+            store0 |-> ObsStore(alt, Q, FALSE), gen0 |-> ObsGen(alt, TRUE), gen0S |-> ObsGen(alt, FALSE)]
 EmitInv == PrintT(ToJson(Line0))
 ASSUME PrintT(ToJson([Q |-> Q]))
 \* the properties hold along the emitted behaviours as well
